@@ -5,6 +5,8 @@ From PV Require Import lib.Sx lib.Str lib.Result model.GenSccw model.SccWrap mod
 From PV Require Import proofs.SccWriteFacts proofs.SccWrapFacts proofs.SccWordsFacts proofs.SccDecodeFacts
      proofs.SccLayoutFacts proofs.SccTimingFacts model.SccRoundTrip model.SccDecoder proofs.SccDocFacts proofs.SccComposeFacts
      proofs.SccRoundTripFacts proofs.SccwBridgeFacts.
+From PV Require Import model.SccStash model.SccTime.
+From PV Require proofs.SccRereadNodes proofs.SccRereadLoad proofs.SccRereadTime proofs.SccRereadDoc model.SccRereadDom proofs.SccRereadDomFacts.
 Import ListNotations.
 Open Scope Q_scope.
 
@@ -211,6 +213,82 @@ Theorem C17_write_meets_oracle : forall caps doc,
 Proof. exact write_meets_oracle. Qed.
 Print Assumptions C17_write_meets_oracle.
 
+
+(* ---- wave 7: the re-read clause THROUGH THE READER MODEL, for arbitrary texts ------------------------------------------
+   Builder sccr's reader model (model/SccDecoder.v: double-command filter, position tracker, node creator, the seven
+   passes of _format_italics, CaptionCreator, the caption store of model/SccStash.v, the clock of model/SccTime.v) is run
+   on the writer model's own layout: ENM ENM RCL RCL, per row PAC PAC (indent form, indent 0) and the row's characters in
+   pairs, EDM EDM EOC EOC, clear lines EDM EDM.  No bound on texts, rows (within 1..15), number of cues. *)
+
+(* a buffer of text and break nodes (what the writer's loads produce) becomes exactly ONE caption whose observed
+   (stripped) text has the words of the buffer - the seven passes only drop empty nodes and strip line ends *)
+Theorem C17_plain_buffer_one_caption : forall nodes s e, SccRereadNodes.plain nodes = true -> forallb SccRereadNodes.tame_node nodes = true ->
+  exists cn lay, build_captions (format_italics nodes) s e [] (mkPre s e [] None) = [mkPre s e cn lay]
+                 /\ words (strip (concat (map node_text cn))) = words (SccRereadNodes.ntext nodes).
+Proof. exact SccRereadDoc.caption_strip. Qed.
+Print Assumptions C17_plain_buffer_one_caption.
+
+(* ONE LOAD LINE, any rows of basic characters on consecutive rows first .. first+n-1 within 1..15, from any state the
+   reader is in between lines (pop-on mode, any tracker / stash / queue): the caption on display is closed at the first
+   EDM (word n+4), and a text-and-break buffer with exactly the words of the rows is queued with the instant of the
+   first EOC (word n+6) as its start (`queued`: nothing is queued when all rows are blank) *)
+Theorem C17_reader_on_load_line : forall pa ro off lines first st tk ds nodes0 q tm tc0 fr0 tc t1 t2,
+  (1 <= first)%Z -> (first + Z.of_nat (length lines) <= 16)%Z ->
+  Forall (fun line => forallb is_basic line = true) lines ->
+  get_time tc (Z.of_nat (length (flat_map roww (number_rows first lines))) + 4) off = Ok t1 ->
+  get_time tc (Z.of_nat (length (flat_map roww (number_rows first lines))) + 6) off = Ok t2 ->
+  exists tk' ds' nodes,
+    translate_line (SccRereadLoad.ST pa ro off st tk LNone ds nodes0 q tm tc0 fr0) (tc, SccRereadLoad.load_words first lines)
+    = SccRereadLoad.ST pa ro off (SccRereadLoad.closed st q t1) tk' LNone ds' (SccRereadLoad.after_eoc nodes) (SccRereadLoad.queued nodes t2) t2 tc
+         (Z.of_nat (length (flat_map roww (number_rows first lines))) + 8)
+    /\ SccRereadNodes.plain nodes = true /\ forallb SccRereadNodes.tame_node nodes = true /\ words (SccRereadNodes.ntext nodes) = flat_map words lines.
+Proof. exact SccRereadLoad.load_line_run. Qed.
+Print Assumptions C17_reader_on_load_line.
+
+(* the reader's clock on the writer's timecodes: word k of a line stamped with frame f (below 100 h) is decoded at
+   (f + k) frames of 1001/30 ms *)
+Theorem C17_reader_clock_on_written_timecode : forall f k, (0 <= f < 10800000)%Z -> (0 <= k)%Z ->
+  exists t, get_time (format_frames f) k 0 = Ok t /\ t == inject_Z (f + k) * mpc.
+Proof. exact SccRereadTime.get_time_frames. Qed.
+Print Assumptions C17_reader_clock_on_written_timecode.
+
+(* THE WHOLE DOCUMENT.  Domain: the composed statement's (basic set, <= 15 rows, cues spaced by their transmission time)
+   plus: every cue has a word (a whitespace-only cue is the known finding C17-whitespace-only-cue-not-reread) and ends
+   below 100 h (two-digit hours).  The decoder never raises; the caption store it ends with holds exactly one caption per
+   cue, in order, with the cue's words (split only when longer than 32) and a start within three frames of the cue's.
+   `_partial`: that the two refusals at the end of SCCReader.read (line-length scan, flash check) do not fire on this
+   store is not proved (request 1705 evaluates it on every generated case) - see C17_reread_refusals_partial *)
+Theorem C17_reread_store_partial : forall caps, SccRereadDoc.caps_ok caps ->
+  exists stf, reread caps = RRRead (finish_read stf)
+              /\ ok_reread (map to_cue caps) (map SccRereadDoc.obs (st_caps stf)) = 0%Z
+              /\ length (st_caps stf) = length caps.
+Proof. exact SccRereadDoc.reread_stash. Qed.
+Print Assumptions C17_reread_store_partial.
+Theorem C17_reread_conditional_partial : forall caps o, SccRereadDoc.caps_ok caps -> reread_obs caps = Some o ->
+  ok_reread (map to_cue caps) o = 0%Z.
+Proof. exact SccRereadDoc.reread_conditional. Qed.
+Print Assumptions C17_reread_conditional_partial.
+(* in the terms of the boolean the harness evaluates on every case (request 1705) *)
+Theorem C17_roundtrip_ok_when_read_partial : forall caps pcs, SccRereadDoc.caps_ok caps ->
+  reread caps = RRRead (ROk pcs) -> roundtrip_ok caps = true.
+Proof. exact SccRereadDoc.roundtrip_ok_when_read. Qed.
+Print Assumptions C17_roundtrip_ok_when_read_partial.
+Theorem C17_reread_refusals_partial : forall caps, SccRereadDoc.caps_ok caps -> caps <> [] ->
+  (exists pcs, reread caps = RRRead (ROk pcs)) \/ (exists m, reread caps = RRRead (RLen m)) \/ reread caps = RRRead (RErr ETiming).
+Proof. exact SccRereadDoc.reread_refusals. Qed.
+Print Assumptions C17_reread_refusals_partial.
+
+(* the decidable domain predicate the harness evaluates on every generated case (request 1706) implies the hypothesis of
+   the theorems above; on it the reader model's answer to the writer model's document is captions or one of the two
+   final refusals - never a decoder error, never 'no captions' *)
+Theorem C17_domain_predicate_sound : forall caps, SccRereadDom.caps_ok_b caps = true -> SccRereadDoc.caps_ok caps.
+Proof. exact SccRereadDomFacts.caps_ok_b_sound. Qed.
+Print Assumptions C17_domain_predicate_sound.
+Theorem C17_reread_class_on_domain_partial : forall caps, SccRereadDom.caps_ok_b caps = true -> caps <> [] ->
+  SccRereadDom.reread_class caps = 0%Z \/ SccRereadDom.reread_class caps = 1%Z \/ SccRereadDom.reread_class caps = 2%Z.
+Proof. exact SccRereadDomFacts.reread_class_on_domain. Qed.
+Print Assumptions C17_reread_class_on_domain_partial.
+
 (* ---- non-vacuity ---------------------------------------------------------------------------------------- *)
 Example C17_example_wrap :
   wrap 32 (lit "aaaaaaaaaa bbbbbbbbbb cccccccc-dddddddddd eee")
@@ -252,3 +330,13 @@ Example C17_example_visible :
   0 <= (10000000 # 1) - code_words code * mpc /\
   tc_frames (pre_roll code (10000000 # 1)) = 288%Z.
 Proof. vm_compute. split; [discriminate|reflexivity]. Qed.
+(* the domain of the wave-7 re-read theorems is inhabited, and on it the reader model does return captions *)
+Example C17_example_reread :
+  let caps := [mkWcap (lit "ab") (10000000 # 1) (12000000 # 1); mkWcap (lit "cd  ef") (12000000 # 1) (13000000 # 1)] in
+  SccRereadDoc.caps_ok caps /\ SccRereadDom.caps_ok_b caps = true /\ (exists o, reread_obs caps = Some o) /\ roundtrip_ok caps = true.
+Proof.
+  split; [|split; [vm_compute; reflexivity|split; [eexists; vm_compute; reflexivity|vm_compute; reflexivity]]].
+  split; [repeat constructor|split; [vm_compute; intuition discriminate|split]].
+  - repeat constructor; vm_compute; discriminate.
+  - repeat constructor.
+Qed.
